@@ -533,10 +533,19 @@ def run_case(tape, batch):
             except U.UnparseError as e:
                 return {"harness": "tree-renderer", "detail": str(e)[:300]}
             except Exception as e:
-                return {"harness": "parse-result-unobservable",
-                        "detail": "the run succeeded without calling Module.parseString and the parser rejects the "
-                                  "text when called directly: %s: %s" % (type(e).__name__, str(e)[:200])}
-        if True:
+                if type(e).__name__ in ("ParseException", "ParseSyntaxException", "ParseFatalException"):
+                    # no tree was produced during the run, and the tool's own parser says the text cannot be
+                    # understood: the run must have failed, yet it reported success
+                    viol.append({"inv": "O2", "sig": "O2:%s:success-without-a-parse" % ent,
+                                 "detail": "the run succeeded although no parse tree was produced and the tool's own "
+                                           "parser rejects the text (%s); corruptions=%s; input tail=%r" %
+                                           (str(e)[:160], case["corruptions"], texts[0][-200:])})
+                    calls = None
+                else:
+                    return {"harness": "parse-result-unobservable",
+                            "detail": "the run succeeded without calling Module.parseString and parsing the text "
+                                      "directly raises %s: %s" % (type(e).__name__, str(e)[:200])}
+        if calls is not None:
             unparsed = "\n".join(u for _, u in calls)
             a = L.bag([tk for tx in parsed_files for tk in L.normalise(L.scan(tx)[0])])
             b = L.bag(L.normalise(L.scan(unparsed)[0]))
